@@ -3,7 +3,7 @@
 //! Only compiled with `--cfg rustic_core_verif`; nothing in here is used by the library itself.
 //! The module merely makes crate-private functionality callable: building the in-memory index
 //! from a list of [`IndexPack`]s in each index mode, creating the chunk iterator, and sealing / opening
-//! a message with the master key.
+//! a message with the master key, and lowering the number of blobs after which an index file is written.
 
 use std::io::Read;
 
@@ -98,4 +98,10 @@ pub fn encrypt_data(key: &MasterKey, data: &[u8]) -> RusticResult<Vec<u8>> {
 /// * If the message is too short or its MAC does not verify
 pub fn decrypt_data(key: &MasterKey, data: &[u8]) -> RusticResult<Vec<u8>> {
     key.key().decrypt_data(data)
+}
+
+/// Write an index file after every `n` indexed blobs instead of after the built-in 50 000 (0 restores the default),
+/// so that small repositories exercise the paths where one command writes several index files
+pub fn set_index_flush_count(n: usize) {
+    crate::index::indexer::VERIF_MAX_COUNT.store(n, std::sync::atomic::Ordering::Relaxed);
 }
